@@ -17,8 +17,9 @@
          the session is not complete;
      R2'/R3' the same for the of_set_available_symbols path (whole table given at once).
 
-   Part 1: generic in the core and in the codeword (Section Gen).
-   Part 2: the instances q = 256 and q = 16. *)
+   Part 1: generic in the core and in the codeword (Section Gen: R1, R2, R2'; Section Few:
+           R3, R3', which hold whatever the submitted values are).
+   Part 2: the instances q = 256 and q = 16, examples. *)
 From Coq Require Import List Arith NArith Bool Lia.
 From OFV Require Import ListAux RSApi RSApiProofs RSCanon RSCore.
 Import ListNotations.
